@@ -221,9 +221,9 @@ func init() {
 			return 0
 		}
 		// the config-file path is not part of the comparison (it differs between the two sides)
-		return fmt.Sprintf("ok legacy=%d warn=%d port=%s address=%s proxy=%s pidfile=%s logfile=%s loglevel=%s auditlog=%s cafile=%s capath=%s aws=%s maxfiles=%s fg=%s pprof=%s nopid=%s agent=%s",
+		return fmt.Sprintf("ok legacy=%d warn=%d port=%s address=%s proxy=%s pidfile=%s logfile=%s loglevel=%s auditlog=%s cafile=%s capath=%s aws=%s maxfiles=%s fg=%s pprof=%s nopid=%s agent=%s apptimeout=%s",
 			bi(legacy), bi(warn), vHexS(cfg.BindPort), vHexS(cfg.BindAddr), vHexS(cfg.Proxy), vHexS(cfg.Pidfile), vHexS(cfg.LogFile), vHexS(strings.ToLower(cfg.LogLevel.String())),
 			vHexS(cfg.AuditFile), vHexS(cfg.CAFile), vHexS(cfg.CAPath), b(cfg.DetectAWS), vHexS(strconv.FormatUint(cfg.MaxFiles, 10)), b(cfg.Foreground),
-			vHexS(strconv.Itoa(cfg.PProfPort)), b(cfg.NoPidfile), b(cfg.Agent))
+			vHexS(strconv.Itoa(cfg.PProfPort)), b(cfg.NoPidfile), b(cfg.Agent), vHexS(strconv.FormatInt(int64(cfg.AppTimeout), 10)))
 	}
 }
